@@ -314,7 +314,7 @@ func c09(r *mon.Run) {
 	// needle than haystack, overlapping repeats, the separator inside an element, multi-byte boundaries, 300-byte runs)
 	long := strings.Repeat("ab", 150)
 	srel := []string{"", "a", "ab", "abc", "abcd", "b", "bc", "c", "abab", "aba", "ba", "aab", "aa", "é", "e", "e\u0301", "éa", "aé", "😀", "😀a", "a😀", "A", "aB", " ", "a ", " a", ",", "a,b", ",a", "a,", "a\x00b", "\n", "ab\n",
-		long, long[:298], long + "a", "b" + long, "\u00e9\u0301", "ß", "ss", "\uffff", "\ue000", "\ufb01", "\U00010000", "\uffffa", "\U0001F600z", "Z", "z", "a\u0300", "\u00e0"}
+		long, long[:298], long + "a", "b" + long, "\u00e9\u0301", "ß", "ss", "\uffff", "\ue000", "\ufb01", "\U00010000", "\U0010FFFF", "\U00100000a", "\U000FFFFF\U00100000", "\U0010FFFD\U0001F600", "\uffffa", "\U0001F600z", "Z", "z", "a\u0300", "\u00e0"}
 	NS := len(srel)
 	strw := mon.Workload{Name: "string-relations", N: NS * NS * 5, Batch: 2000,
 		Do: func(i int, t *mon.Tally) {
